@@ -369,7 +369,7 @@ def analyze(ctx, want):
         return None
 
     # =============================================================== binary operators
-    fn, ex, paths = run(r"TryFrom<\(&regex_syntax::ast::ClassSetBinaryOp, bool\)>>::try_from$")
+    fn, ex, paths = run(r"MatchFn as std::convert::TryFrom<(\(&regex_syntax::ast::ClassSetBinaryOp, bool\)|internal::match_function::\w+<'_, regex_syntax::ast::ClassSetBinaryOp>)>>::try_from$")
     EXPECT_BIN = {"Intersection": lambda e: e["lhs"] and e["rhs"], "Difference": lambda e: e["lhs"] and not e["rhs"],
                   "SymmetricDifference": lambda e: e["lhs"] != e["rhs"]}
     seen = set()
@@ -378,7 +378,8 @@ def analyze(ctx, want):
         if not (r[0] == "adt" and r[2] == "Ok"):
             continue
         kinds = [(c, o) for c, o in p.conds if c[0] == "discr" and "kind" in S.vstr(c)]
-        neg = [(c, o) for c, o in p.conds if S.vstr(c) in ("arg1.1", "negated") or (c[0] == "field" and c[2] == "1" and c[1] == ("sym", "arg1"))]
+        pn_ = fn.names().get(1, "arg1")      # the (node, negated) pair — a tuple or a small carrier struct — is the only parameter
+        neg = [(c, o) for c, o in p.conds if S.vstr(c) in ("arg1.1", "negated", pn_ + ".1") or (c[0] == "field" and c[2] == "1" and c[1] in (("sym", "arg1"), ("sym", pn_)))]
         if not kinds:
             # the operator may also be selected inside the predicate (the closure owns the kind and tests it per call): the
             # predicate's paths are split by the kind they are for, and each part is compared with that operator's denotation
@@ -440,7 +441,7 @@ def analyze(ctx, want):
     ob("C08.b", "binary-op:operands-are-lhs-and-rhs", any("lhs" in x for x in conv) and any("rhs" in x for x in conv), "converted operands: %s" % sorted(conv), fn.loc())
 
     # =============================================================== items
-    fn, ex, paths = run(r"TryFrom<\(&regex_syntax::ast::ClassSetItem, bool\)>>::try_from$", max_paths=8000)
+    fn, ex, paths = run(r"MatchFn as std::convert::TryFrom<(\(&regex_syntax::ast::ClassSetItem, bool\)|internal::match_function::\w+<'_, regex_syntax::ast::ClassSetItem>)>>::try_from$", max_paths=8000)
     item_cases = {}
     for p in ret_paths(paths):
         r = p.end[1]
@@ -451,7 +452,8 @@ def analyze(ctx, want):
             continue
         c0, o0 = disc[0]
         variant = dict((dv, n) for n, dv in c0[2]).get(o0)
-        outer_neg = [(c, o) for c, o in p.conds if c == ("field", ("sym", "arg1"), "1")]
+        pn_ = fn.names().get(1, "arg1")
+        outer_neg = [(c, o) for c, o in p.conds if c in (("field", ("sym", "arg1"), "1"), ("field", ("sym", pn_), "1"))]
         oneg = outer_neg[-1][1] if outer_neg else None
         sub = None
         if variant == "Ascii":
